@@ -197,6 +197,17 @@ def run_dilute(ctx, case):
         sp = dilute_spec(case, dr)
         with np.errstate(all='ignore'):
             p = G.build(sp).createPRISM()
+        # vanishing density: h -> c -> Mayer function, so gamma = h - c = O(rho) and x = 0 is a root up to O(rho) - no solver needed
+        with np.errstate(all='ignore'):
+            y0 = np.asarray(p.cost(np.zeros(sp['L'])), dtype=float)
+        ctx.hook('dilute.cost_at_zero')
+        r_ = R.grids(sp['L'], dr)[0]
+        lim = 50 * sp['rho']['A'] * r_.max() + 1e-12
+        ctx.observe('dilute_cost0/(50 rho r_max)', float(np.abs(y0).max()) / lim)
+        if not np.all(np.abs(y0) <= lim):
+            ctx.violation('exact:dilute-cost-at-zero-not-O(rho)', 'dilute %s/%s rho=%.3g: |r (gamma_out - 0)| = %.3g at the ideal-gas point, expected O(rho) <= %.3g (loss of precision at low density?)' % (
+                case['pot'], case['clo'], sp['rho']['A'], float(np.abs(y0).max()), lim))
+            return
         res = solve(p)
         if res is None:
             raise core.Skip('dilute level did not converge')
